@@ -44,6 +44,22 @@ pub const INITIAL_COMMITMENT_NUMBER: u64 = (1 << 48) - 1;
 
 pub type MemPersister = KVVPersister<MemoryKVVStore, JsonFormat>;
 pub type CloudPersister = KVVPersister<vls_persist::kvv::cloud::CloudKVVStore<MemoryKVVStore>, JsonFormat>;
+pub type RedbPersister = KVVPersister<vls_persist::kvv::redb::RedbKVVStore, JsonFormat>;
+
+/// redb mode: the node persists through the store vlsd uses by default, a redb database in its
+/// own directory (on tmpfs when there is one: fsync behaviour of the OS is not examined).
+pub struct RedbHome {
+    pub dir: std::sync::Arc<tempfile::TempDir>,
+    pub persister: Arc<RedbPersister>,
+}
+
+pub fn redb_tmp_dir() -> tempfile::TempDir {
+    if std::path::Path::new("/dev/shm").is_dir() {
+        tempfile::Builder::new().prefix("vverif-world-").tempdir_in("/dev/shm").unwrap()
+    } else {
+        tempfile::Builder::new().prefix("vverif-world-").tempdir().unwrap()
+    }
+}
 
 /// Result of one request to the signer: a panic is neither acceptance nor refusal.
 #[derive(Debug)]
@@ -633,6 +649,8 @@ pub struct World {
     /// backup mode: the node persists through vls-persist's BackupPersister(main = `store`,
     /// backup = this store)
     pub backup: Option<Arc<MemPersister>>,
+    /// redb mode: the node's persister is a redb database on disk; `store` is then unused
+    pub redb: Option<RedbHome>,
 }
 
 const SIGNER_ID: [u8; 16] = [3u8; 16];
@@ -682,7 +700,64 @@ impl World {
         node.add_allowlist(&[]).expect("allowlist");
         store.new_node(&node.get_id(), &config, &*node.get_state()).expect("new_node");
         store.new_tracker(&node.get_id(), &node.get_tracker()).expect("new_tracker");
-        World { cfg, secp: Secp256k1::new(), node, store, cloud: None, clock, vfactory, chans: vec![], restarts: 0, fault, backup: None }
+        World { cfg, secp: Secp256k1::new(), node, store, cloud: None, clock, vfactory, chans: vec![], restarts: 0, fault, backup: None, redb: None }
+    }
+
+    /// A world whose node persists through KVVPersister<RedbKVVStore> (vlsd's default store).
+    pub fn new_redb(cfg: WorldCfg, vfactory: Arc<dyn ValidatorFactory>) -> World {
+        let dir = std::sync::Arc::new(redb_tmp_dir());
+        let persister: Arc<RedbPersister> = Arc::new(KVVPersister(vls_persist::kvv::redb::RedbKVVStore::new(dir.path().join("db")), JsonFormat));
+        let store: Arc<MemPersister> = Arc::new(KVVPersister(MemoryKVVStore::new(SIGNER_ID), JsonFormat));
+        let clock = Arc::new(ManualClock::new(Duration::from_secs(cfg.now_secs)));
+        let services = NodeServices {
+            validator_factory: vfactory.clone(),
+            starting_time_factory: FixedStartingTimeFactory::new(1, 1),
+            persister: persister.clone(),
+            clock: clock.clone(),
+            trusted_oracle_pubkeys: cfg.trusted_oracles.clone(),
+        };
+        let mut config = NodeConfig::new(cfg.network);
+        config.key_derivation_style = cfg.style;
+        let node = Arc::new(Node::new(config, &cfg.seed, vec![], services));
+        node.add_allowlist(&[]).expect("allowlist");
+        persister.new_node(&node.get_id(), &config, &*node.get_state()).expect("new_node");
+        persister.new_tracker(&node.get_id(), &node.get_tracker()).expect("new_tracker");
+        World { cfg, secp: Secp256k1::new(), node, store, cloud: None, clock, vfactory, chans: vec![], restarts: 0, fault: std::sync::Arc::new(FaultSwitch::default()), backup: None, redb: Some(RedbHome { dir, persister }) }
+    }
+
+    /// redb mode: a second signer from a byte copy of the database directory, opened afresh (the
+    /// reopen path of RedbKVVStore: version cache rebuilt from the file).
+    pub fn restore_twin_redb(&self) -> Out<(Arc<Node>, RedbHome)> {
+        let home = self.redb.as_ref().expect("redb mode");
+        let src = home.dir.path().join("db");
+        let vf = self.vfactory.clone();
+        let clock = self.clock.clone();
+        let seed = self.cfg.seed;
+        let oracles = self.cfg.trusted_oracles.clone();
+        call(move || {
+            let dir = std::sync::Arc::new(redb_tmp_dir());
+            let dst = dir.path().join("db");
+            std::fs::create_dir(&dst).expect("mkdir");
+            for e in std::fs::read_dir(&src).expect("read_dir") {
+                let e = e.expect("dir entry");
+                std::fs::copy(e.path(), dst.join(e.file_name())).expect("copy database file");
+            }
+            let persister: Arc<RedbPersister> = Arc::new(KVVPersister(vls_persist::kvv::redb::RedbKVVStore::new(&dst), JsonFormat));
+            let services = NodeServices {
+                validator_factory: vf,
+                starting_time_factory: FixedStartingTimeFactory::new(1, 1),
+                persister: persister.clone(),
+                clock,
+                trusted_oracle_pubkeys: oracles,
+            };
+            let nodes = persister.get_nodes().map_err(|e| Status::internal(format!("get_nodes: {:?}", e)))?;
+            if nodes.len() != 1 {
+                return Err(Status::internal(format!("{} nodes in store", nodes.len())));
+            }
+            let (node_id, entry) = nodes.into_iter().next().unwrap();
+            let node = Node::restore_node(&node_id, entry, &seed, services)?;
+            Ok((node, RedbHome { dir, persister }))
+        })
     }
 
     /// A world whose node persists through CloudKVVStore<MemoryKVVStore>.
@@ -706,7 +781,7 @@ impl World {
         cloud.new_tracker(&node.get_id(), &node.get_tracker()).expect("new_tracker");
         let _ = cloud.prepare();
         cloud.commit().expect("commit");
-        World { cfg, secp: Secp256k1::new(), node, store, cloud: Some(cloud), clock, vfactory, chans: vec![], restarts: 0, fault: std::sync::Arc::new(FaultSwitch::default()), backup: None }
+        World { cfg, secp: Secp256k1::new(), node, store, cloud: Some(cloud), clock, vfactory, chans: vec![], restarts: 0, fault: std::sync::Arc::new(FaultSwitch::default()), backup: None, redb: None }
     }
 
     /// A world whose node persists through BackupPersister(main, backup), both in-memory KVV
@@ -733,7 +808,7 @@ impl World {
         node.add_allowlist(&[]).expect("allowlist");
         composite.new_node(&node.get_id(), &config, &*node.get_state()).expect("new_node");
         composite.new_tracker(&node.get_id(), &node.get_tracker()).expect("new_tracker");
-        World { cfg, secp: Secp256k1::new(), node, store, cloud: None, clock, vfactory, chans: vec![], restarts: 0, fault, backup: Some(backup) }
+        World { cfg, secp: Secp256k1::new(), node, store, cloud: None, clock, vfactory, chans: vec![], restarts: 0, fault, backup: Some(backup), redb: None }
     }
 
     /// Dump of the backup store (backup mode).
@@ -882,6 +957,9 @@ impl World {
 
     /// Dump of the persistent store (key -> (version, value)), ordered.
     pub fn store_dump(&self) -> Vec<(String, u64, Vec<u8>)> {
+        if let Some(h) = &self.redb {
+            return h.persister.0.get_prefix("").unwrap().map(|k| { let (k, (v, val)) = k.into_inner(); (k, v, val) }).collect();
+        }
         match &self.cloud {
             None => self.store.0.get_prefix("").unwrap().map(|k| { let (k, (v, val)) = k.into_inner(); (k, v, val) }).collect(),
             // CloudKVVStore::get_prefix reads the committed local store
@@ -950,6 +1028,18 @@ impl World {
 
     /// Restart the signer: continue on a node restored from a copy of the store.
     pub fn restart(&mut self) -> Out<()> {
+        if self.redb.is_some() {
+            return match self.restore_twin_redb() {
+                Out::Ok((node, home)) => {
+                    self.node = node;
+                    self.redb = Some(home);
+                    self.restarts += 1;
+                    Out::Ok(())
+                }
+                Out::Err(e) => Out::Err(e),
+                Out::Panic(p) => Out::Panic(p),
+            };
+        }
         if self.cloud.is_some() {
             return match self.restore_twin_cloud() {
                 Out::Ok((node, cloud)) => {
